@@ -342,6 +342,7 @@ struct Fill {
     will_close: Vec<bool>,
     regs: usize,
     phase2: bool,
+    last_commit: Option<(ScalarSpec, ScalarSpec)>,
 }
 
 impl Fill {
@@ -595,12 +596,41 @@ pub fn gen_program(ch: &mut Choices, curve: Curve, cfg: &GenCfg) -> Program {
         sim(&flat, &mut will_close);
     }
 
-    let mut f = Fill { ncom: 0, gates: vec![], pending: None, will_close, regs: 0, phase2: false };
+    let mut f = Fill { ncom: 0, gates: vec![], pending: None, will_close, regs: 0, phase2: false, last_commit: None };
     let fill_op = |ch: &mut Choices, f: &mut Fill, k: Kind| -> Op {
         match k {
             Kind::Commit => {
                 f.ncom += 1;
-                Op::Commit { v: ScalarSpec::gen(ch), blind: ScalarSpec::gen(ch) }
+                let (mut v, mut blind) = (ScalarSpec::gen(ch), ScalarSpec::gen(ch));
+                // now and then a commitment equal or opposite to the previous one (equal and
+                // inverse points among the verifier's bases)
+                if let Some((pv, pb)) = f.last_commit.clone() {
+                    let neg = |s: &ScalarSpec| -> Option<ScalarSpec> {
+                        Some(match s {
+                            ScalarSpec::Zero => ScalarSpec::Zero,
+                            ScalarSpec::One => ScalarSpec::MinusOne,
+                            ScalarSpec::MinusOne => ScalarSpec::One,
+                            ScalarSpec::Small(k) => ScalarSpec::NegSmall(*k),
+                            ScalarSpec::NegSmall(k) => ScalarSpec::Small(*k),
+                            _ => return None,
+                        })
+                    };
+                    match ch.weighted(&[236, 12, 8]) {
+                        1 => {
+                            v = pv;
+                            blind = pb;
+                        }
+                        2 => {
+                            if let (Some(nv), Some(nb)) = (neg(&pv), neg(&pb)) {
+                                v = nv;
+                                blind = nb;
+                            }
+                        }
+                        _ => {}
+                    }
+                }
+                f.last_commit = Some((v.clone(), blind.clone()));
+                Op::Commit { v, blind }
             }
             Kind::Alloc => {
                 let val = gen_sc(ch, f, false);
